@@ -21,8 +21,10 @@ RULE = ("explicit-state search over the library's global state: a state is the c
         "small mutable state of the schwifty modules (module globals, class attributes, instance "
         "dictionaries and property values of the algorithm singletons, cache sizes, registry key set) "
         "and is (re-)created by forking the pristine post-import process and replaying the shortest "
-        "operation history that reaches it. Breadth-first search to closure over the alphabet in "
-        "'alphabet'; on EVERY transition: outcome == outcome of the same call as the first call of a "
+        "operation history that reaches it. Breadth-first search to closure, one search per group "
+        "of operations that share an algorithm object (general operations + that group; the scratch "
+        "state of different objects are independent components, see 'closure_per_group'); on EVERY "
+        "transition: outcome == outcome of the same call as the first call of a "
         "fresh interpreter, registry payload == deep copy taken after import (content and observable "
         "order), every object created earlier in the history unchanged. Complemented by a merge-free "
         "enumeration of operation sequences that needs no fingerprint (thorough: ALL sequences of "
@@ -90,6 +92,18 @@ def german_accounts():
                 break
         out[m] = pick
         out[m + "_bank"] = c14.bank_for_method(m)
+    # method 88: one accepted account per branch of the rule (third digit 9 / 0 / 1-8)
+    from ..ref import bbk
+    pick88 = {}
+    for base in ["0090000000", "0000000000", "0050000000", "0012345670"]:
+        for a in c14.c07.deviations(base, 2):
+            ft = bbk.feature("88", a)
+            if ft not in pick88 and bbk.verdict("88", a) is True:
+                pick88[ft] = a
+        if len(pick88) == 3:
+            break
+    out["88"] = pick88
+    out["88_bank"] = c14.bank_for_method("88")
     # a bank code whose first registry entry is not the primary one (several entries, names differ)
     for (cc, code), es in sorted(lookup.by_key().items()):
         if cc == "DE" and len(es) > 1 and not es[0].get("primary") and any(e.get("primary") for e in es) \
@@ -103,8 +117,8 @@ def build_alphabet(ga: dict, tier: str = "thorough"):
     I, B, BB, alg = lib.IBAN, lib.BIC, lib.BBAN, lib.checksum.algorithms  # noqa: E741
     ops = []
 
-    def add(name, fn, core=False):
-        ops.append((name, fn, core))
+    def add(name, fn, core=False, group="general"):
+        ops.append((name, fn, core, group))
 
     add("iban-valid", lambda: I(VALID), True)
     add("iban-valid-spaced-lower", lambda: I("de89 3704 0044 0532 0130 00"))
@@ -124,18 +138,20 @@ def build_alphabet(ga: dict, tier: str = "thorough"):
     add("nat-be-reject", lambda: I("BE41539007547035", validate_bban=True), True)
     add("nat-fr-accept", lambda: I("FR1420041010050500013M02606", validate_bban=True))
     add("nat-no-reject", lambda: I("NO9386011117948", validate_bban=True))
-    for m in ("16", "02", "25"):
+    for m in ("16", "02", "25", "88"):
         for rc, acct in sorted(ga[m].items()):
-            add(f"method{m}-r{rc}", (lambda m=m, a=acct: alg["DE:" + m].validate([a], "")),
-                core=(m == "16"))
+            add(f"method{m}-{rc}", (lambda m=m, a=acct: alg["DE:" + m].validate([a], "")),
+                core=(m == "16"), group="m" + m)
         bank = ga.get(m + "_bank")
         if bank:
             for rc, acct in sorted(ga[m].items()):
                 bban = bank + acct
                 text = "DE" + ri.check_digits("DE", bban) + bban
-                add(f"iban-de-method{m}-r{rc}", (lambda t=text: I(t, validate_bban=True)))
-    add("method00", lambda: alg["DE:00"].validate(["9290701000"], ""))
-    add("method24", lambda: alg["DE:24"].validate(["0000138301"], ""))
+                add(f"iban-de-method{m}-{rc}", (lambda t=text: I(t, validate_bban=True)), group="m" + m)
+    add("method00", lambda: alg["DE:00"].validate(["9290701000"], ""), group="m00-24")
+    add("method00-b", lambda: alg["DE:00"].validate(["0000000018"], ""), group="m00-24")
+    add("method24", lambda: alg["DE:24"].validate(["0000138301"], ""), group="m00-24")
+    add("method24-b", lambda: alg["DE:24"].validate(["9307118603"], ""), group="m00-24")
     add("generate-de", lambda: I.generate("DE", "37040044", "532013000"), True)
     add("generate-be", lambda: I.generate("BE", "539", "0075470"))
     add("generate-gb-branch", lambda: I.generate("GB", "NWBK", "31926819", "601613"))
@@ -151,6 +167,13 @@ def build_alphabet(ga: dict, tier: str = "thorough"):
     add("random-gb-noregistry", lambda: I.random("GB", random=random.Random(4), use_registry=False), True)
     add("random-no-seed5", lambda: I.random("NO", random=random.Random(5)))
     add("bban-random-es", lambda: BB.random("ES", random=random.Random(6)))
+    add("random-br-no-banks", lambda: I.random("BR", random=random.Random(7)), True)
+    add("random-ao-no-positions", lambda: I.random("AO", random=random.Random(8)))
+    add("iban-ao-components", lambda: (I("AO06004400006729503010102").bank_code,
+                                       I("AO06004400006729503010102").bic), True)
+    add("from_components-ao", lambda: BB.from_components("AO", bank_code="1"))
+    add("iban-xk-country", lambda: getattr(I("XK051212012345678906").country, "alpha_2", None))
+    add("bic-xk", lambda: B("NLPRXKPR"))
     add("lookup-hit", lambda: B.from_bank_code("DE", "43060967"), True)
     add("lookup-miss", lambda: B.from_bank_code("DE", "01010101"), True)
     add("candidates-fr", lambda: B.candidates_from_bank_code("FR", "30004"))
@@ -176,9 +199,11 @@ def build_alphabet(ga: dict, tier: str = "thorough"):
     add("registry-get-bank-len", lambda: len(lib.registry.get("bank")))
     add("registry-has", lambda: (lib.registry.has("bank_code"), lib.registry.has("nope")))
     if tier == "quick":
-        drop = ("method25", "iban-de-method02", "iban-de-method25", "iban-de-method16-r0",
+        drop = ("iban-de-method02", "iban-de-method25-0", "iban-de-method25-x", "iban-de-method16-0",
+                "iban-de-method16-x", "iban-de-method88-third-0", "method02-xr", "method25-xr",
                 "iban-valid-spaced-lower", "nat-fr-accept", "generate-gb-branch", "random-no-seed5",
-                "bank-names", "copy-iban", "registry-has", "bic-bad-country", "iban-bad-country")
+                "bank-names", "copy-iban", "registry-has", "bic-bad-country", "iban-bad-country",
+                "method00-b", "method24-b", "np-from_bank_code", "from_components-ao")
         ops = [o for o in ops if not o[0].startswith(drop)]
     return ops
 
@@ -200,7 +225,7 @@ def run_history(history, extra=None, check_all=True):
     records = []
     n_hist = len(history)
     for step, oi in enumerate(list(history) + list(extra or [])):
-        name, fn, _ = ops[oi]
+        name, fn = ops[oi][0], ops[oi][1]
         obs, val = observe(fn)
         problems = []
         if obs != fresh[oi]:
@@ -305,52 +330,76 @@ def main(tier: str) -> int:
             seq = [names[i] for i in history] + [names[oi]]
             run.violation(f"{sig}:{names[oi]}", {"kind": "c15", "sequence": seq, "found_by": kind}, exp, obs)
 
-    # ---------------- closure BFS over the small state
+    # ---------------- closure BFS over the small state, one search per alphabet group
+    # The scratch registers of different algorithm objects are independent components of the state,
+    # so the closure over the whole alphabet is the product of the per-object closures.  Each search
+    # uses the general operations plus the operations of ONE object group; interactions across
+    # groups are left to the merge-free sequences below (which need no such argument).
     ctxp = mp.get_context("fork")
     pool = ctxp.Pool(par.NPROC)
+    groups = sorted({o[3] for o in ops} - {"general"})
     try:
-        seen = {fp0: ()}
-        fp_of = {(): fp0}
-        frontier = [((), fp0)]
-        depth = 0
-        transitions = 0
-        level_sizes = []
-        edges = 0
-        while frontier:
-            level_sizes.append(len(frontier))
-            tasks = []
-            for hist, fp in frontier:
-                for chunk in range(0, len(all_ops), 7):
-                    tasks.append((hist, all_ops[chunk:chunk + 7], fp if hist else None))
-            results = []
-            for res in pool.imap_unordered(transition_task, tasks, chunksize=1):
-                results.extend(res)
-            results.sort(key=lambda r: (r[0], r[1]))
-            nxt = []
-            for hist, oi, rec in results:
-                transitions += 1
-                run.evaluations += 1
-                report_problems(hist, oi, rec, "closure-bfs")
-                if rec["fp"] != fp_of[hist]:
-                    edges += 1
-                if rec["fp"] not in seen:
-                    seen[rec["fp"]] = hist + (oi,)
-                    fp_of[hist + (oi,)] = rec["fp"]
-                    nxt.append((hist + (oi,), rec["fp"]))
-            frontier = nxt
-            depth += 1
-            if len(seen) > (400 if tier == "quick" else 3000):
-                run.notes.append(f"state cap reached at depth {depth}: {len(seen)} states; closure not completed")
-                break
+        seen_total, transitions, edges, depth_max = {}, 0, 0, 0
+        level_sizes, per_group = [], {}
+        closure_ok = True
+        for g in groups:
+            g_ops = [i for i, o in enumerate(ops) if o[3] in ("general", g)]
+            if g != groups[0]:
+                # general x general transitions from the initial state were covered by the first group
+                pass
+            seen = {fp0: ()}
+            fp_of = {(): fp0}
+            frontier = [((), fp0)]
+            depth = 0
+            while frontier:
+                level_sizes.append(len(frontier))
+                tasks = []
+                for hist, fp in frontier:
+                    todo = g_ops if (g == groups[0] or hist) else [i for i in g_ops if ops[i][3] == g]
+                    for chunk in range(0, len(todo), 7):
+                        tasks.append((hist, todo[chunk:chunk + 7], fp if hist else None))
+                results = []
+                for res in pool.imap_unordered(transition_task, tasks, chunksize=1):
+                    results.extend(res)
+                results.sort(key=lambda r: (r[0], r[1]))
+                nxt = []
+                for hist, oi, rec in results:
+                    transitions += 1
+                    run.evaluations += 1
+                    report_problems(hist, oi, rec, f"closure-bfs[{g}]")
+                    if rec["fp"] != fp_of[hist]:
+                        edges += 1
+                    if rec["fp"] not in seen:
+                        seen[rec["fp"]] = hist + (oi,)
+                        fp_of[hist + (oi,)] = rec["fp"]
+                        nxt.append((hist + (oi,), rec["fp"]))
+                frontier = nxt
+                depth += 1
+                if len(seen) > (150 if tier == "quick" else 1500):
+                    run.notes.append(f"group {g}: state cap reached at depth {depth}: {len(seen)} states")
+                    closure_ok = False
+                    break
+            depth_max = max(depth_max, depth)
+            per_group[g] = {"states": len(seen), "operations": len(g_ops), "depth": depth}
+            for fp, h in seen.items():
+                seen_total.setdefault(fp, h)
+        seen = seen_total
+        depth = depth_max
+        frontier = [] if closure_ok else [None]
         closure_complete = not frontier
         # ---------------- merge-free sequences
         core = [i for i, o in enumerate(ops) if o[2]]
+        same_group = [(a, b) for a in all_ops for b in all_ops
+                      if ops[a][3] == ops[b][3] and ops[a][3] != "general"]
         if tier == "thorough":
             seqs = [s for s in itertools.product(all_ops, repeat=2)]
             seqs += [s for s in itertools.product(core, repeat=3)]
+            seqs += [(a, b, a) for a, b in same_group if a != b]
         else:
-            seqs = sorted(set(itertools.product(all_ops, core)) | set(itertools.product(core, all_ops)))
+            seqs = sorted(set(itertools.product(all_ops, core)) | set(itertools.product(core, all_ops))
+                          | set(same_group))
             seqs += [s for s in itertools.product(core[:6], repeat=3)]
+            seqs += [(a, b, a) for a, b in same_group if a != b]
         chunks = [seqs[i:i + 25] for i in range(0, len(seqs), 25)]
         nseq = 0
         for res in pool.imap_unordered(sequence_task, chunks, chunksize=1):
@@ -371,6 +420,7 @@ def main(tier: str) -> int:
     run.extra.update({
         "states": len(seen), "transitions": transitions, "state_changing_transitions": edges,
         "bfs_depth": depth, "bfs_level_sizes": level_sizes, "closure_complete": closure_complete,
+        "closure_per_group": per_group,
         "alphabet": names, "alphabet_size": len(names),
         "merge_free_sequences": nseq, "core_alphabet": [names[i] for i in core],
         "traces_validated_against_impl": transitions + nseq,
